@@ -113,7 +113,9 @@ CLAIMED = {
          'interactive mode, resolve %abbreviations at parse time, make consuming calls and finalize under random active scopes.',
          BASE + 'Partial: that two histories reach the same store is observed, not proved (evaluation_depends_only_on_state is '
          'the trivial half); macro names are identifiers or scope-like a/b; acyclic definitions.'),
- 'C06': ('Theorems emit_only_representable / emit_macros_representable / emit_sections_from_store / emit_params_complete / mem_sortBy / '
+ 'C06': ('Theorems emit_order_independent (permutation invariance: two stores with the same bindings made in any order emit the same '
+         'document; insertion sort yields the unique sorted permutation, keyLe is a total preorder whose ties are equal sort keys) / '
+         'emit_only_representable / emit_macros_representable / emit_sections_from_store / emit_params_complete / mem_sortBy / '
          'length_sortBy about the structural mirror of _config_str (which sections and bindings are printed, under which minimal '
          'selector, in which order); config_str() of generated stores (case-colliding names and scopes, methods, long values that '
          'pprint splits, references, macros, values without literal form also as macro values) is compared structurally with the '
@@ -121,7 +123,8 @@ CLAIMED = {
          'representable binding with value and type, second serialisation identical, wrap rule, markdown keeps binding lines, for '
          'several (max_line_length, continuation_indent).',
          BASE + 'Partial: repr / pprint.pformat and line wrapping are CPython\'s (text level is checked on the real code only); '
-         'permutation invariance is checked by the two-order oracle, not yet a Lean theorem; static registration only (import '
+         'permutation invariance is a Lean theorem under the hypothesis that distinct keys have distinct sort keys (true when components are '
+         'identifiers: the tie-break is the key\'s own spelling) and is also checked by the two-order oracle; static registration only (import '
          'lines / dynamic registration are C19, not built); D24 is a recorded finding.'),
  'C07': ('Theorems operative_param (exact per-parameter characterisation of what one call records) / operative_excludes_caller_supplied / '
          'operative_only_supplied (binding, or configurable representable default) / call_records (entry update, frame for never-called '
